@@ -174,6 +174,24 @@ def _parse_composition_keywords(
     )
 
 
+_WRAPPER_ANNOTATIONS = frozenset(
+    {"allOf", "nullable", "description", "title", "readOnly", "writeOnly", "deprecated", "default", "example", "examples"}
+)
+
+
+def _single_ref_wrapper_target(node: Any) -> str | None:
+    """The $ref of a node that is nothing but `allOf: [{$ref: ...}]` plus annotations, else None."""
+    if not isinstance(node, Mapping) or set(node.keys()) - _WRAPPER_ANNOTATIONS:
+        return None
+    members = node.get("allOf")
+    if not isinstance(members, list) or len(members) != 1:
+        return None
+    member = members[0]
+    if isinstance(member, Mapping) and set(member.keys()) == {"$ref"} and isinstance(member["$ref"], str):
+        return member["$ref"]
+    return None
+
+
 def _parse_properties(
     properties_node: Mapping[str, Any],
     parent_schema_name: str | None,
@@ -194,6 +212,37 @@ def _parse_properties(
 
         if prop_name in parsed_props:  # Already handled by allOf or a previous definition, skip
             continue
+
+        # `allOf: [{$ref: X}]` next to annotations only (nullable, description, readOnly, ...) is the OpenAPI 3.0 idiom
+        # for "X, but nullable / described": keywords beside a $ref are ignored, so the $ref is wrapped. When X is not an
+        # object model (an enum, a primitive or array alias) the wrapper must not become an empty object class of its
+        # own - nothing but null would decode into it. The property refers to X.
+        wrapped_ref = _single_ref_wrapper_target(prop_schema_node)
+        if wrapped_ref is not None:
+            target_ir = _resolve_ref(wrapped_ref, parent_schema_name, context, max_depth_override, allow_self_reference)
+            is_plain_value = (
+                target_ir.name is not None
+                and not target_ir.properties
+                and not target_ir.all_of
+                and not target_ir.any_of
+                and not target_ir.one_of
+                and (bool(target_ir.enum) or target_ir.type in ("string", "integer", "number", "boolean", "array"))
+                and not target_ir._from_unresolved_ref
+                and not target_ir._is_circular_ref
+            )
+            if is_plain_value:
+                parsed_props[prop_name] = IRSchema(
+                    name=None,  # Property name is the dict key, not stored in the schema object
+                    type=target_ir.name,
+                    description=prop_schema_node.get("description", target_ir.description),
+                    is_nullable=bool(prop_schema_node.get("nullable", False)) or target_ir.is_nullable,
+                    default=prop_schema_node.get("default"),
+                    example=prop_schema_node.get("example"),
+                    items=target_ir.items if target_ir.type == "array" else None,
+                    format=target_ir.format,
+                    _refers_to_schema=target_ir,
+                )
+                continue
 
         if isinstance(prop_schema_node, Mapping) and "$ref" in prop_schema_node:
             parsed_props[prop_name] = _resolve_ref(
